@@ -14,11 +14,14 @@ for un in sys.argv[1:]:
     hashes = {}
     counts = {}
     local_names = {}
+    csigs = {}
     for line in open(os.path.join(build.BUILD, un + ".xlog")):
         p = line.rstrip("\n").split("\t")
         if p[0] == "LOOP":
             hashes[(p[2], p[3])] = p[4]
             counts[p[2]] = max(counts.get(p[2], 0), int(p[3]))
+        if p[0] == "CLOSURE":
+            csigs[(p[2], p[3])] = p[4]
         if p[0] == "LOCALS":
             local_names[p[2]] = p[3] if len(p) > 3 else ""
     for c in u["contracts"]:
@@ -44,6 +47,11 @@ for un in sys.argv[1:]:
                     out.append(new)
                     if new not in lines[idx + 1: idx + 3]: changed = True
                 continue
+            mc = re.match(r"^#closure (\d+)(.*)$", line)
+            if mc and (f, mc.group(1)) in csigs:
+                new = "#closure %s @sig=%s" % (mc.group(1), csigs[(f, mc.group(1))])
+                if new != line: changed = True
+                line = new
             m = re.match(r"^#(inv|dec|pre|post|bs|be) (\d+)(.*)$", line)
             if m and (f, m.group(2)) in hashes:
                 rest = re.sub(r"\s*@hdr=\w+", "", m.group(3))
